@@ -18,6 +18,21 @@ CLAIMED = {
  "C06": dict(cat="exploration", tech="runtime monitoring: crash/termination monitor in journalled worker processes + VM step hook (bounded logical progress) + goroutine-dump deadlock identification",
    text="Fixed lists scale programs to just below, at and above every implementation limit (sized exactly in code bytes for the jump distance), feed every invalid/extreme literal form in 8 contexts and every out-of-domain operand; random bytes, token soups and damaged generated programs add breadth. Every input goes through Parse+Execute, Interpret, Unmarshal and a file variant; a panic (also in the file variants' goroutines, which kills the worker and is found through the journal), a deadlock (from goroutine dumps) or more executed instructions than the program has refutes the property.",
    note="Inputs whose legitimate result would exhaust memory are skipped as the property states. A watchdog firing that is not confirmed when the case runs alone is inconclusive, not a violation.", ref="§6 C06"),
+ "C09": dict(cat="exploration", tech="runtime monitoring: metamorphic monitor (parsed vs dump->load through 6 reader behaviours and every 2-partition) + independent decoder/encoder agreement",
+   text="Every accepted program of a size-directed list (constants, identifiers, names, code and offsets across every varint class and the 4096-byte buffers) and of the generators is dumped, decoded by an independent codec, loaded back through hostile readers and executed; disassembly, output, blocks, binding, warnings, error text and the re-dump must be identical.",
+   note="Trusted: Execute of the parsed program as reference; internal/bc as the written-down format.", ref="§6 C09"),
+ "C10": dict(cat="exploration", tech="runtime monitoring: structural-invariant monitor (independent decoder + CFG dataflow checker) on the artefact of every compilation, cross-checked against executions through a VM step hook",
+   text="The in-memory parts of every compiled program are decoded and checked along all CFG paths (tiling, RET, operand kinds, jump targets, equal operand/block depth on all in-edges, live slots); each execution is compared step by step (pc on a boundary, tos and blockTos equal to the static values) and run a second time with flipped switch variables so that jumps are seen in both directions.",
+   note="Every path of every program the workload compiled, not of programs it did not produce. The opcode table is validated against the VM by the dynamic cross-check.", ref="§6 C10"),
+ "C13": dict(cat="fault_enumeration", tech="runtime monitoring: crash monitor over every interruption point of every dump (exhaustive cut points, two reader behaviours, failing writer) + exhaustive header sweeps",
+   text="Every proper prefix of each dump (exhaustive for dumps up to 4000 bytes; edges and buffer boundaries for larger ones) must be rejected with an error and without panic through a whole-slice and a one-byte reader; interrupted writes are produced by a failing writer; all 2^16 magic values and all 2^16 version pairs are tried.",
+   note="Enumerates the crash points of a writer at byte granularity; assumes the complete dump loads (checked).", ref="§6 C13"),
+ "C14": dict(cat="exploration", tech="runtime monitoring: offline checker over a recorded corpus (46 files incl. hand-assembled ones for every opcode/constant kind/varint class) + independent decoder/encoder on every fresh dump",
+   text="Recorded files must load and execute to their recorded disassembly, output, blocks, binding and errors through two reader behaviours; every fresh dump must decode with the independently written-down format into exactly the program's parts and re-encode byte for byte, so a symmetric change of layout, numbering or encoding (invisible to round-trip tests) is caught.",
+   note="The corpus was recorded once and cross-checked against a build of the pinned commit d0f6a51 (46/46 identical).", ref="§6 C14"),
+ "C17": dict(cat="exploration", tech="runtime monitoring: recognizer monitor (independent strict recursive-descent recognizer with static rules run side by side with bcl.Parse on sentences and every single-token edit)",
+   text="All token sequences of length <= 2, generated sentences with every single-token deletion/transposition/insertion/replacement over a 55-token vocabulary, random sequences and two-fault programs: accept/reject must agree with the recognizer, the first diagnostic must sit at the first non-viable token, Interpret must return no results on rejection, err != nil iff a diagnostic was written, and a later faulty statement must get its own diagnostic.",
+   note="Trusted: the grammar of DESIGN §5.2 (pre-validated on 58M sequences); the unspecified 'not'-operand zone gives no verdict.", ref="§6 C17"),
 }
 
 NOT_YET = {}
